@@ -228,6 +228,7 @@ func plans(id, tier string) (Plan, bool) {
 	case "C18":
 		return Plan{Level: "exploration", Jobs: []Job{
 			{Pkg: pkgCP, Harness: "c18_lexer", Shards: 16, MaxProcs: 2},
+			{Pkg: pkgCP, Harness: "c18_lexer", Params: fmt.Sprintf("text=unicode;maxlen=%d", pick(4, 5)), Shards: 16, MaxProcs: 2},
 			{Pkg: pkgCP, Harness: "c18_chunks", Shards: pick(2, 8), MaxProcs: 2},
 		}}, true
 	case "C19":
